@@ -327,7 +327,8 @@ def check_placement(sim_spec, so, mod_spec, mo, who='module'):
         # and the years agree with the dates to ~a day
         for i in range(n):
             days = (mo.datevec[i] - so.datevec[0]).days
-            if abs(mo.abstvec[i] * UNIT_DAYS['year'] - days) > 2:
+            # (the elapsed axis has 365.25-day years, the calendar 365.2425 on average: 3 days per 400 years of distance are inherent)
+            if abs(mo.abstvec[i] * UNIT_DAYS['year'] - days) > 2 + abs(mo.abstvec[i]) * F(3, 400):
                 fail('year-sim-dates', f'abstvec[{i}]={float(mo.abstvec[i])} years = {float(mo.abstvec[i]*UNIT_DAYS["year"]):.2f} days but the dates are {days} days apart')
                 break
     else:
